@@ -189,6 +189,8 @@ pub struct RunLog {
     pub epilogue_polls_max: usize,
 }
 
+static DECOY_PROPS: [Property<'static>; 2] = [Property::UserProperty("decoy", "decoy"), Property::MessageExpiryInterval(7)];
+
 pub fn to_property<'a>(p: &'a Prop) -> Property<'a> {
     match p {
         Prop::PayloadFormat(v) => Property::PayloadFormatIndicator(*v),
@@ -863,7 +865,16 @@ impl<'d> Exec<'d> {
                             if correlate_first {
                                 p = p.correlate(spec.correlate.as_ref().unwrap());
                             }
-                            if !props.is_empty() || spec.correlate.is_none() {
+                            // one request in four sets everything twice, the way a builder is used
+                            // when defaults are overridden: the later call wins
+                            let twice = (spec.topic.len() + props.len() + body.len()) % 4 == 0;
+                            if twice {
+                                p = p.properties(&DECOY_PROPS).qos(qos_of((spec.qos + 1) % 3)).qos(qos_of(spec.qos));
+                                if spec.correlate.is_some() && !correlate_first {
+                                    p = p.correlate(b"decoy");
+                                }
+                            }
+                            if !props.is_empty() || spec.correlate.is_none() || twice {
                                 p = p.properties(&props);
                             }
                             if let (Some(c), false) = (&spec.correlate, correlate_first) {
